@@ -6,22 +6,29 @@ from common import *
 
 ID = 'C09'
 COQ_FILES = ['Base/Mat.v', 'Base/SumQ.v', 'Model/Clustering.v', 'Proofs/ClusteringSpec.v', 'Proofs/Clustering.v',
-             'Proofs/ClusteringRange.v', 'Properties/C09.v']
+             'Proofs/ClusteringRange.v', 'Proofs/ClusteringSign.v', 'Proofs/ClusteringCount.v', 'Properties/C09.v']
 THEOREMS = ['C09_diag_cube_is_triples', 'C09_cbrt_laws', 'C09_cbrt_mul', 'C09_cc_bu_def', 'C09_cc_bd_fagiolo', 'C09_cc_wu_onnela',
             'C09_cc_wd_def', 'C09_cc_wu_sign_def', 'C09_cc_zhang_def', 'C09_cc_costantini_def',
             'C09_trans_bu_def', 'C09_trans_bd_def', 'C09_trans_wu_def', 'C09_trans_wd_def',
             'C09_no_triangle_zero', 'C09_deg_lt2_zero',
             'C09_range_01_bu', 'C09_range_01_bd', 'C09_range_01_wu', 'C09_range_01_wd', 'C09_range_01_wu_sign',
-            'C09_range_01_trans', 'C09_no_division_by_zero']
+            'C09_range_01_trans', 'C09_no_division_by_zero',
+            'C09_cuberoot_is_cube_root', 'C09_cuberoot_odd', 'C09_wu_sign_code', 'C09_wu_sign_no_triangle_zero',
+            'C09_wu_sign_deg_lt2_zero', 'C09_range_01_zhang', 'C09_range_costantini', 'C09_no_division_by_zero_sign',
+            'C09_tri_dir_counts', 'C09_cc_bd_counting', 'C09_tri_dir_weighted_enumeration']
 RULE = ('all undirected 0/1 graphs n<=4 (quick) / n<=5 (thorough) and all digraphs n<=3 / n<=4 with empty diagonal; '
         'all weighted graphs n=3 (und. 4 weight values; directed 3 values) and n=4 (und., 3 values; every 5th in quick), random weighted graphs n<=8 (undirected, directed, signed) with weights m^3/512, m in 1..8, so that the cube root is exact; '
-        'families without triangles (paths, stars, even rings, bipartite, trees), graphs with isolated nodes, complete graphs, '
-        'integer-dtype 0/1 arrays; non-trivial = at least one node lies on a triangle; distinct by hash of (function, matrix)')
-ASSUMES = ['weights are m^3/512: the exact cube root used by the extracted model (integer cube root of numerator and '
-           'denominator) is the true cube root; values through cube roots / quotients are compared with tolerance 1e-9',
+        'NEGATIVE weights fed straight into clustering_coef_wu/wd and transitivity_wu/wd (random + every sign pattern on K3 and K4-e), '
+        'tiny cube weights (m/N)^3 with N up to 50 (triangle intensities far below 1e-4), weights that are NOT cubes (float oracle with np.cbrt, 1e-9, no model run); '
+        'bct.utils.cuberoot itself on +-m^3/N^3; families without triangles (paths, stars, even rings, bipartite, trees), graphs with isolated nodes, complete graphs, '
+        'integer-dtype arrays (per-node routines, the four transitivities, wu_sign on -1/0/1), the empty graph n=0, coef_type spellings '
+        "'Zhang' / 'Costantini' and unknown strings (fall-through: None); non-trivial = at least one node lies on a triangle; distinct by hash of (function, matrix)")
+ASSUMES = ['weights are perfect cubes (m/N)^3: the exact cube root used by the extracted model (the code\'s sign/abs decomposition around the integer cube '
+           'root of numerator and denominator) is the true cube root; values through cube roots / quotients are compared with tolerance 1e-9',
+           'with non-cube weights only the implementation is compared (float oracle); with negative weights the [0,1] range clause is replaced by [-1,1]',
            'empty diagonal (the property\'s domain); clustering_coef_wu_sign is also fed nonzero diagonals because it clears them itself']
-TRUSTED = ['cbrt is a Section variable in the proofs (hypotheses: cube, 0, 1, odd, monotone); the extracted model is run with '
-           'cbrt_exact, which satisfies them only on quotients of perfect cubes (the generated weights)']
+TRUSTED = ['cbrt is a Section variable in the proofs (hypothesis: a cube root of the entries at hand; 0, 1, odd, monotone, multiplicative are derived); '
+           'the extracted model is run with cuberoot(cbrt_exact) = sign(x) * exact root of |x|, which satisfies it only on quotients of perfect cubes (the generated weights)']
 
 TOL = 1e-9
 
@@ -48,6 +55,62 @@ def all_dir(n):
 def cube_w(r):
     m = int(r.randint(1, 9))
     return F(m ** 3, 512)
+
+
+def tiny_cube_w(r):
+    """perfect cubes far below 1/512 (m/N)^3, N up to 50: triangles whose intensity is tiny but not zero"""
+    N = int(r.choice([10, 20, 50])); m = int(r.randint(1, 4))
+    return F(m ** 3, N ** 3)
+
+
+def noncube_w(r):
+    """weights whose cube root is irrational: only the float oracle applies (tolerance 1e-9), no model run"""
+    return F(int(r.randint(1, 64)), 64) if r.rand() < 0.7 else F(int(r.randint(1, 1000)), 1000)
+
+
+def flip_signs(r, W, p=0.4, symmetric=True):
+    n = len(W)
+    W = [row[:] for row in W]
+    for i in range(n):
+        for j in range(i + 1 if symmetric else 0, n):
+            if i != j and r.rand() < p:
+                W[i][j] = -W[i][j]
+                if symmetric:
+                    W[j][i] = -W[j][i]
+    return W
+
+
+def fo_und(W):
+    """float oracle (Onnela), independent cube root np.cbrt: (C vector, transitivity or None)"""
+    n = len(W); A = npm(W); c = np.cbrt(A)
+    C, st, sT = [], 0.0, 0.0
+    for i in range(n):
+        nb = [v for v in range(n) if v != i and A[i, v] != 0]
+        t = sum(c[i, j] * c[j, k] * c[k, i] for j in nb for k in nb if j != k)
+        T = len(nb) * (len(nb) - 1)
+        st += t; sT += T
+        C.append(0.0 if (T == 0 or not any(A[j, k] != 0 for j in nb for k in nb if j != k)) else t / T)
+    return C, (st / sT if sT else None)
+
+
+def fo_dir(W):
+    """float oracle (Fagiolo weighted)"""
+    n = len(W); A = npm(W); c = np.cbrt(A); a = (A != 0).astype(float)
+    C, st, sT = [], 0.0, 0.0
+    for i in range(n):
+        t = 0.0; has = False
+        for j in range(n):
+            for k in range(j + 1, n):
+                if i != j and i != k:
+                    x = (c[i, j] + c[j, i]) * (c[j, k] + c[k, j]) * (c[k, i] + c[i, k])
+                    t += x
+                    has = has or ((a[i, j] + a[j, i]) * (a[j, k] + a[k, j]) * (a[k, i] + a[i, k]) != 0)
+        dtot = sum(a[i, j] + a[j, i] for j in range(n) if j != i)
+        dbi = sum(a[i, j] * a[j, i] for j in range(n) if j != i)
+        T = dtot * (dtot - 1) - 2 * dbi
+        st += t; sT += T
+        C.append(t / T if has else 0.0)
+    return C, (st / sT if sT else None)
 
 
 def rand_und(r, n, dens, weight=None, signed=False):
@@ -276,7 +339,7 @@ class Bag:
         ctx.check(bool(np.all(np.isfinite(C)) and np.all(C >= lo - TOL) and np.all(C <= 1 + TOL)), fn + ':range_01',
                   'value outside [0,1]: %r' % C.tolist(), case)
 
-    def vec(self, fn, mfn, W, oracle, dtype=float, family='', margs=''):
+    def vec(self, fn, mfn, W, oracle, dtype=float, family='', margs='', signed=False):
         """per-node routine: direct oracle + zero clauses + range, and queue the model run"""
         ctx, bct = self.ctx, self.bct
         case = {'fn': fn, 'W': strs(W), 'dtype': np.dtype(dtype).name}
@@ -291,60 +354,107 @@ class Bag:
             return
         ctx.check(vec_close(oracle, C), fn + ':definition', 'differs from the triple-enumeration definition: got %r expected %r'
                   % (np.asarray(C).tolist(), [str(x) for x in oracle]), case)
-        self.zero_and_range(fn, W, C, case)
-        if dtype is float:
+        self.zero_and_range(fn, W, C, case, signed_ok=signed)
+        if dtype is float and mfn:
             self.lines.append(mfn + ' ' + enc_mat(W, enc_q) + margs)
             self.pend.append(('vec', fn, case, C))
 
-    def sign(self, W, ty, name, family=''):
+    def sign(self, W, ty, name, family='', dtype=float):
+        """ty: 0 default, 1 zhang, 2 costantini, 3 'Zhang', 4 'Costantini', 5 any other string (falls through: None)"""
         ctx, bct = self.ctx, self.bct
         fn = 'clustering_coef_wu_sign'
-        case = {'fn': fn, 'coef_type': name, 'W': strs(W)}
+        case = {'fn': fn, 'coef_type': name, 'W': strs(W), 'dtype': np.dtype(dtype).name}
         Z, P, N = parts(W)
         ctx.case(case, nontrivial=any(on_triangle(P)) or any(on_triangle(N)))
         ctx.count('%s[%s]:n=%d' % (fn, name, len(W)))
         if family:
             ctx.count('family:' + family)
         try:
-            R = call(bct.clustering_coef_wu_sign, npm(W), name)   # works on a copy of the argument
+            with np.errstate(all='ignore'):
+                R = call(bct.clustering_coef_wu_sign, npm(W, dtype), name)   # works on a copy of the argument
         except Exception as e:
             ctx.fail(fn + ':raises', 'raised %r' % e, case)
             return
-        if ty == 0:
+        kind = {0: 0, 1: 1, 2: 2, 3: 1, 4: 2}.get(ty, 3)
+        if kind == 3:
+            ctx.check(R is None, fn + ':dispatch', 'unknown coef_type must fall through (None), got %r' % (R,), case)
+        elif R is None or (kind != 2 and (not isinstance(R, tuple) or len(R) != 2)):
+            ctx.fail(fn + ':dispatch', 'coef_type %r returned %r' % (name, R), case)
+            return
+        elif kind == 0:
             ok = vec_close(o_cc_wu(P), R[0]) and vec_close(o_cc_wu(N), R[1])
             ctx.check(ok, fn + ':definition_default', 'differs from Onnela on the positive / negative part', case)
             self.zero_and_range(fn, P, R[0], case); self.zero_and_range(fn, N, R[1], case)
-        elif ty == 1:
-            op, on = o_zhang(P), o_zhang(N)
-            if None not in op and None not in on:
-                ctx.check(vec_close(op, R[0]) and vec_close(on, R[1]), fn + ':definition_zhang', 'differs from Zhang-Horvath', case)
-                self.zero_and_range(fn, P, R[0], case); self.zero_and_range(fn, N, R[1], case)
+        elif kind == 1:
+            op, on = o_zhang(P), o_zhang(N)     # None (zero denominator under a nonzero numerator) cannot occur: C09_no_division_by_zero
+            ctx.check(None not in op and None not in on and vec_close(op, R[0]) and vec_close(on, R[1]), fn + ':definition_zhang',
+                      'differs from Zhang-Horvath: got %r' % ([np.asarray(x).tolist() for x in R],), case)
+            self.zero_and_range(fn, P, R[0], case); self.zero_and_range(fn, N, R[1], case)
         else:
             oc = o_costantini(Z)
-            if None not in oc:
-                ctx.check(vec_close(oc, R), fn + ':definition_costantini', 'differs from Costantini-Perugini', case)
-                self.zero_and_range(fn, Z, R, case, signed_ok=True)
-        self.lines.append('cc_sign ' + enc_mat(W, enc_q) + ' %d' % ty)
-        self.pend.append(('sign%d' % ty, fn, case, R))
+            ctx.check(None not in oc and vec_close(oc, R), fn + ':definition_costantini',
+                      'differs from Costantini-Perugini: got %r' % (np.asarray(R).tolist(),), case)
+            self.zero_and_range(fn, Z, R, case, signed_ok=True)
+        if dtype is float:
+            self.lines.append('cc_sign ' + enc_mat(W, enc_q) + ' %d' % ty)
+            self.pend.append(('sign%d' % kind, fn, case, R))
 
-    def trans(self, fn, which, W, oracle, family=''):
+    def trans(self, fn, which, W, oracle, family='', signed=False, dtype=float):
         ctx, bct = self.ctx, self.bct
-        case = {'fn': fn, 'W': strs(W)}
+        case = {'fn': fn, 'W': strs(W), 'dtype': np.dtype(dtype).name}
         ctx.case(case, nontrivial=any(on_triangle(W)))
         ctx.count('%s:n=%d' % (fn, len(W)))
+        if family:
+            ctx.count('family:' + family)
         try:
-            T = call(getattr(bct, fn), npm(W))
+            with np.errstate(all='ignore'):
+                T = call(getattr(bct, fn), npm(W, dtype))
         except Exception as e:
             ctx.fail(fn + ':raises', 'raised %r' % e, case)
             return
         ctx.check(sc_close(oracle, T), fn + ':definition', 'differs from triangles/triples by enumeration: got %r expected %s'
                   % (float(T), oracle), case)
         if oracle is not None:
-            ctx.check(-TOL <= float(T) <= 1 + TOL, fn + ':range_01', 'value outside [0,1]: %r' % float(T), case)
+            ctx.check((-1 if signed else 0) - TOL <= float(T) <= 1 + TOL, fn + ':range_01', 'value outside [0,1]: %r' % float(T), case)
             if not any(on_triangle(W)):
                 ctx.check(float(T) == 0.0, fn + ':no_triangle_zero', 'no triangle but T=%r' % float(T), case)
-        self.lines.append('trans ' + enc_mat(W, enc_q) + ' %d' % which)
-        self.pend.append(('sc', fn, case, T))
+        if dtype is float:
+            self.lines.append('trans ' + enc_mat(W, enc_q) + ' %d' % which)
+            self.pend.append(('sc', fn, case, T))
+
+    def float_only(self, W, directed, family):
+        """weights that are not perfect cubes: implementation against the float oracle at 1e-9 (no exact model)"""
+        ctx, bct = self.ctx, self.bct
+        fnc, fnt = ('clustering_coef_wd', 'transitivity_wd') if directed else ('clustering_coef_wu', 'transitivity_wu')
+        case = {'fn': fnc, 'W': strs(W), 'oracle': 'float'}
+        ctx.case(case, nontrivial=any(on_triangle(W))); ctx.count('family:' + family)
+        oc, ot = (fo_dir if directed else fo_und)(W)
+        try:
+            with np.errstate(all='ignore'):
+                C = np.asarray(call(getattr(bct, fnc), npm(W)), dtype=float); T = float(call(getattr(bct, fnt), npm(W)))
+        except Exception as e:
+            ctx.fail(fnc + ':raises', 'raised %r' % e, case); return
+        ok = len(C) == len(oc) and all(np.isfinite(g) and abs(g - e) <= TOL * max(1.0, abs(e)) for e, g in zip(oc, C))
+        ctx.check(ok, fnc + ':definition', 'differs from the definition evaluated in floats (np.cbrt): got %r expected %r' % (C.tolist(), oc), case)
+        ctx.check((ot is None and not np.isfinite(T)) or (ot is not None and np.isfinite(T) and abs(T - ot) <= TOL * max(1.0, abs(ot))),
+                  fnt + ':definition', 'differs from the definition evaluated in floats: got %r expected %r' % (T, ot), case)
+        self.zero_and_range(fnc, W, C, case, signed_ok=True)
+
+    def cuberoot(self, x):
+        """bct.utils.cuberoot on a scalar (as a 1-element array): the real odd cube root"""
+        ctx = self.ctx
+        from bct.utils import cuberoot
+        case = {'fn': 'cuberoot', 'x': str(x)}
+        ctx.case(case, nontrivial=x != 0); ctx.count('cuberoot:' + ('neg' if x < 0 else 'pos' if x > 0 else 'zero'))
+        try:
+            with np.errstate(all='ignore'):
+                y = float(np.asarray(call(cuberoot, np.array([float(x)])))[0])
+        except Exception as e:
+            ctx.fail('cuberoot:raises', 'raised %r' % e, case); return
+        want = cbrtF(x)
+        ctx.check(np.isfinite(y) and abs(y - float(want)) <= 1e-12 * max(1.0, abs(float(want))), 'cuberoot:odd_cube_root',
+                  'cuberoot(%s) = %r, expected %s' % (x, y, want), case)
+        self.lines.append('cbrt ' + enc_q(x)); self.pend.append(('cbrt', 'cuberoot', case, y))
 
     # ---- per input kind
     def und_binary(self, A, family=''):
@@ -361,15 +471,15 @@ class Bag:
         self.vec('clustering_coef_bd', 'cc_bd', A, o_cc_dir(A, False), family=family)
         self.trans('transitivity_bd', 1, A, o_trans_sum(t, T))
 
-    def und_weighted(self, W, family=''):
+    def und_weighted(self, W, family='', signed=False):
         t, T = o_und_parts(W)
-        self.vec('clustering_coef_wu', 'cc_wu', W, o_cc_wu(W), family=family)
-        self.trans('transitivity_wu', 2, W, o_trans_sum(t, T))
+        self.vec('clustering_coef_wu', 'cc_wu', W, o_cc_wu(W), family=family, signed=signed)
+        self.trans('transitivity_wu', 2, W, o_trans_sum(t, T), signed=signed)
 
-    def dir_weighted(self, W, family=''):
+    def dir_weighted(self, W, family='', signed=False):
         t, T = o_dir_parts(W, True)
-        self.vec('clustering_coef_wd', 'cc_wd', W, o_cc_dir(W, True), family=family)
-        self.trans('transitivity_wd', 3, W, o_trans_sum(t, T))
+        self.vec('clustering_coef_wd', 'cc_wd', W, o_cc_dir(W, True), family=family, signed=signed)
+        self.trans('transitivity_wd', 3, W, o_trans_sum(t, T), signed=signed)
 
 
 def run(ctx):
@@ -463,7 +573,55 @@ def run(ctx):
                 ((('clustering_coef_bu', o_cc_bu(A)), ('clustering_coef_wu', o_cc_wu(A))) if t % 2 else ()):
             B.vec(fn, '', A, orc, dtype=int, family='int_dtype')
 
-    # ---- correspondence: extracted Coq model (cbrt := cbrt_exact) on the same inputs
+    # ---- cuberoot itself: negative arguments, tiny and large magnitudes (np.sign(x) * np.abs(x)**(1/3))
+    for N in (1, 2, 8, 50):
+        for m in range(0, 13 if ctx.thorough else 7):
+            for sg in ((1, -1) if m else (1,)):
+                B.cuberoot(F(sg * m ** 3, N ** 3))
+    # ---- negative weights straight into wu / wd / transitivity_wu / _wd (cuberoot's sign handling; K counts every
+    #      nonzero entry), tiny triangles (weights far below 1/512), weights that are not cubes (float oracle)
+    for t in range(ctx.scale(40, 300)):
+        n = int(r.randint(3, 8)); dens = float(r.choice([0.5, 0.8, 1.0]))
+        Ws = flip_signs(r, rand_und(r, n, dens, cube_w), 0.4, True)
+        B.und_weighted(Ws, family='negative_weights_und', signed=True)
+        B.dir_weighted(flip_signs(r, rand_dir(r, n, dens * 0.7, cube_w), 0.4, False), family='negative_weights_dir', signed=True)
+        if t % 2 == 0:
+            B.dir_weighted(Ws, family='negative_weights_sym_as_dir', signed=True)
+        Wt = rand_und(r, n, dens, tiny_cube_w)
+        B.und_weighted(Wt, family='tiny_weights'); B.dir_weighted(rand_dir(r, n, dens * 0.7, tiny_cube_w), family='tiny_weights')
+        if t % 3 == 0:
+            B.sign(flip_signs(r, Wt, 0.4, True), 0, 'default', family='tiny_weights')
+        B.float_only(rand_und(r, n, dens, noncube_w), False, 'noncube_weights')
+        B.float_only(flip_signs(r, rand_dir(r, n, dens * 0.7, noncube_w), 0.3, False), True, 'noncube_weights')
+    # ---- the smallest signed triangles exhaustively: every sign pattern on K3 and K4 minus an edge
+    for n, edges in ((3, [(0, 1), (1, 2), (0, 2)]), (4, [(0, 1), (1, 2), (0, 2), (2, 3), (1, 3)])):
+        for sg in itertools.product((1, -1), repeat=len(edges)):
+            for w in (F(1), F(1, 8), F(1, 125000)):
+                W = [[F(0)] * n for _ in range(n)]
+                for (i, j), s_ in zip(edges, sg):
+                    W[i][j] = W[j][i] = s_ * w
+                B.und_weighted(W, family='signed_exhaustive', signed=True); B.dir_weighted(W, family='signed_exhaustive', signed=True)
+    # ---- coef_type dispatch: capitalised aliases and the silent fall-through; integer dtype; the empty graph
+    for t in range(ctx.scale(12, 60)):
+        n = int(r.randint(2, 7))
+        Ws = rand_und(r, n, 0.7, cube_w, signed=True)
+        for ty, name in ((3, 'Zhang'), (4, 'Costantini'), (5, ('onnela', 'Default', '', 'zhang ')[t % 4])):
+            B.sign(Ws, ty, name, family='coef_type_alias')
+        Wi = [[F(int(np.sign(x))) for x in row] for row in Ws]           # entries -1 / 0 / 1 as an int array
+        for ty, name in ((0, 'default'), (1, 'zhang'), (2, 'costantini')):
+            B.sign(Wi, ty, name, family='int_dtype', dtype=int)
+        A = rand_und(r, n, 0.6); D = rand_dir(r, n, 0.5)
+        B.trans('transitivity_bu', 0, A, o_trans_bu(A), family='int_dtype', dtype=int)
+        B.trans('transitivity_wu', 2, A, o_trans_sum(*o_und_parts(A)), family='int_dtype', dtype=int)
+        B.trans('transitivity_bd', 1, D, o_trans_sum(*o_dir_parts(D, False)), family='int_dtype', dtype=int)
+        B.trans('transitivity_wd', 3, D, o_trans_sum(*o_dir_parts(D, True)), family='int_dtype', dtype=int)
+    E0 = []
+    B.und_binary(E0, family='empty_graph'); B.dir_binary(E0, family='empty_graph')
+    B.und_weighted(E0, family='empty_graph'); B.dir_weighted(E0, family='empty_graph')
+    for ty, name in ((0, 'default'), (1, 'zhang'), (2, 'costantini')):
+        B.sign(E0, ty, name, family='empty_graph')
+
+    # ---- correspondence: extracted Coq model (cuberoot := sign * exact root of |x|) on the same inputs
     res = run_model(ID, B.lines)
     ctx.model_cases = len(B.lines)
     for (kind, fn, case, R), m in zip(B.pend, res):
@@ -477,13 +635,21 @@ def run(ctx):
             M = None if m is None else dec_q(m)
             if not sc_close(M, R):
                 ctx.mismatch(fn, 'model and implementation differ', case, str(M), float(R))
+        elif kind == 'sign3':
+            if not (m is None and R is None):
+                ctx.mismatch(fn + ':dispatch', 'model and implementation differ on the fall-through', case, str(m), repr(R))
+        elif m is None:
+            ctx.mismatch(fn + ':dispatch', 'model falls through, implementation returned a value', case, None, repr(R))
         elif kind in ('sign0', 'sign1'):
             M0, M1 = [dec_q(x) for x in m[0]], [dec_q(x) for x in m[1]]
-            fin = np.all(np.isfinite(R[0])) and np.all(np.isfinite(R[1]))
-            if fin and not (vec_close(M0, R[0]) and vec_close(M1, R[1])):
+            if not (vec_close(M0, R[0]) and vec_close(M1, R[1])):      # a non-finite output is a mismatch (vec_close is False)
                 ctx.mismatch(fn + ':' + case['coef_type'], 'model and implementation differ', case,
                              [[str(x) for x in M0], [str(x) for x in M1]], [np.asarray(R[0]).tolist(), np.asarray(R[1]).tolist()])
+        elif kind == 'cbrt':
+            M = dec_q(m)
+            if not frac_close(M, float(R), 1e-12):
+                ctx.mismatch(fn, 'model and implementation differ', case, str(M), float(R))
         else:
             M0 = [dec_q(x) for x in m[0]]
-            if np.all(np.isfinite(R)) and not vec_close(M0, R):
+            if not vec_close(M0, R):
                 ctx.mismatch(fn + ':costantini', 'model and implementation differ', case, [str(x) for x in M0], np.asarray(R).tolist())
